@@ -32,7 +32,7 @@ let show_rev (r : string rev) =
     (match r.r_hashes with [] -> "-" | l -> String.concat "," l) (b2s r.r_err) (int_of_n r.r_kind)
 
 let show_event = function
-  | EExec (_, s, ok) -> Printf.sprintf "x:%s:%s" (hexb s) (b2s ok)
+  | EExec (_, _, s, ok) -> Printf.sprintf "x:%s:%s" (hexb s) (b2s ok)
   | EWrite (r, ok) -> Printf.sprintf "w:%s:%s" (show_rev r) (b2s ok)
 
 let show_files fs = String.concat "," (Stdlib.List.map (fun f -> hexb f.f_version) fs)
